@@ -128,6 +128,16 @@ func C05(r *Run) *core.Report {
 	rep.MinCount("C05.F1", "explored core exits", nExits, 20)
 	rep.MinCount("C05.F2", "user-function call sites reached (over modes)", nCalls, 8)
 	c05F4(r, rep)
+	// F5: 'present' means present for ==: keys that compare equal hash equal, otherwise a get-or-create on an equal key
+	// misses the live value and runs the function again (restated from the hasher rules of C10)
+	// F6: in the cache layer 'a live value exists' is decided by the expiry predicates; they must have the canonical
+	// shape (e > 0 && now > e), or a get-or-create treats a live value as gone and runs the function (restated from C01.T1)
+	tmp := core.NewReport("C05")
+	c01T1(r, tmp)
+	n6 := borrow(rep, tmp, "C05.F6", "C01.T1")
+	rep.MinCount("C05.F6", "premise obligations (expiry predicates)", n6, 2)
+	n5 := borrow(rep, C10(r), "C05.F5", "C10.H")
+	rep.MinCount("C05.F5", "premise obligations (hash agrees with ==)", n5, 4)
 	return rep
 }
 
